@@ -42,6 +42,16 @@ private theorem cpyC07_of_all {cfg : Cfg} {dest dmax src m g : Nat} {st st' : St
   obtain ⟨h1, h2⟩ := hiff.1 hc
   exact (h.hit h1 h2).2.ovrlp
 
+/-- **disjoint operands are never rejected** — corollary of the exact characterisation for every call that reads the
+source terminator (`strcpy_s`, `wcscpy_s`, and the bounded copies when `m < slen`): the `dmax` cells of dest lie below
+`src`, or the `m + 1` source cells lie below dest -/
+theorem cpyC07_disjoint_not_rejected {cfg : Cfg} {dest dmax src m : Nat} {st st' : St} {code : Nat}
+    (h : CpyC07 cfg dest dmax src m st st' code) (hdisj : dest + dmax ≤ src ∨ src + m + 1 ≤ dest) :
+    code ≠ ESOVRLP := by
+  intro hc
+  have := h.1.1 hc
+  omega
+
 /-- **strcpy_s: ESOVRLP exactly when the cells copied meet** — source string of length `n` at any address ≠ dest -/
 theorem strcpy_s_C07_exact (cfg : Cfg) (dest dmax src n : Nat) (destbos : Bos) (st : St)
     (hall : ∀ a, st.mapped a = true ∧ st.rd a = true)
@@ -288,6 +298,15 @@ private theorem ncatC07_of_all {cfg : Cfg} {dest dmax dl src slen m : Nat} {st s
   refine ⟨catC07_of_all hdl h, fun hdisj => ?_⟩
   have hiff := cat_ovrlp_iff hdl h
   exact ⟨fun hc => by have := hiff.1 hc; omega, fun hh => hiff.2 (by omega)⟩
+
+/-- **disjoint operands are never rejected by the concatenations** when the source terminator is read (`strcat_s`,
+`wcscat_s`, the bounded ones when `m < slen`) -/
+theorem catC07_disjoint_not_rejected {cfg : Cfg} {dest dmax dl src m : Nat} {st st' : St} {code : Nat}
+    (hdl : dl < dmax) (h : CatC07 cfg dest dmax dl src m st st' code)
+    (hdisj : dest + dmax ≤ src ∨ src + m + 1 ≤ dest) : code ≠ ESOVRLP := by
+  intro hc
+  have := h.1.1 hc
+  omega
 
 /-- **strcat_s: ESOVRLP exactly when `src` lies inside the dest string or the cells appended meet the source cells** —
 dest string of length `dl < dmax`, source string of length `n` at any address (identical pointers included) -/
